@@ -1,4 +1,5 @@
 import Gmx.Lemmas.FixedStr
+import Gmx.Lemmas.RoleNames
 /-!
 # C35 — stored names read back exactly as they were accepted
 
@@ -149,5 +150,86 @@ example : toBytes 5 [0xc3, 0xa9, 0xe2, 0x82, 0xac] = .ok [0xc3, 0xa9, 0xe2, 0x82
 example : fromBytes 5 [0xc3, 0xa9, 0xe2, 0x82, 0xac] = .ok [0xc3, 0xa9, 0xe2, 0x82, 0xac] := by decide
 example : toBytes 2 [0x41, 0x42, 0x43] = .error .tooLong := by decide
 example : fromBytes 3 [0xc3, 0x28, 0] = .error .utf8 := by decide
+
+/-! ### program-side wrappers and role usability (with the C18 role-table model) -/
+section
+open Gmx.RoleNames Gmx.Roles
+
+/-- the store-side wrappers (`Store::init/key`, `Market::init/name`, `Executor::try_init/
+role_name`, `RoleMetadata::new/name`): an accepted name is read back unchanged; the error kinds. -/
+theorem wrapped_roundtrip (L : Nat) (n : List Nat) (hv : utf8Valid n = true) :
+    (n.length ≤ L ∧ 0 ∉ n → wrappedRoundtrip L n = .ok n) ∧
+    (n.length > L → wrappedRoundtrip L n = .error .exceedMax) ∧
+    (n.length ≤ L ∧ 0 ∈ n → wrappedRoundtrip L n = .error .invalidArgument) := by
+  unfold wrappedRoundtrip
+  refine ⟨fun h => ?_, fun h => ?_, fun h => ?_⟩
+  · have hb := (toBytes_ok_iff L n _).2 ⟨h.1, h.2, rfl⟩
+    rw [hb]; simp only; rw [roundtrip hv hb]
+  · rw [(toBytes_tooLong_iff L n).2 h]; rfl
+  · rw [(toBytes_format_iff L n).2 h]; rfl
+
+/-- **An accepted role can be used, granted and disabled.** If `enable_role` accepts a new role
+name (any name of at most 32 bytes without NUL — including one that fills the field) then: its
+stored name reads back as the same name (so every later `require_eq!(metadata.name()?, role)`
+passes), granting it to a new member succeeds (room permitting), `has_role` then says yes,
+disabling succeeds, after which `has_role` reports the role as disabled, and it can be
+re-enabled. -/
+theorem role_usable_after_accept {A : Type} [DecidableEq A] (s : St (List Nat) A) (n : List Nat) (a : A)
+    (hv : utf8Valid n = true) (hnew : findRole s.roles n = none) (hroom : s.roles.length < 32)
+    (hlen : n.length ≤ 32) (hnul : 0 ∉ n) :
+    ∃ b s1, toBytes 32 n = .ok b ∧ fromBytes 32 b = .ok n ∧ enableNamed s n = .ok s1 ∧
+      (lookup s1.members a = none → s1.members.length < 64 →
+        ∃ s2, grant s1 a n = .ok s2 ∧ hasRole s2 a n = .ok true ∧
+        ∃ s3, disableRole s2 n = .ok s3 ∧ hasRole s3 a n = .error .Preconditions ∧
+        ∃ s4, enableNamed s3 n = .ok s4 ∧ hasRole s4 a n = .ok true) := by
+  have hb := (toBytes_ok_iff 32 n _).2 ⟨hlen, hnul, rfl⟩
+  refine ⟨_, ⟨s.roles ++ [⟨n, true, s.roles.length⟩], s.members⟩, hb, roundtrip hv hb, ?_, ?_⟩
+  · unfold enableNamed
+    rw [hnew]; simp only; rw [hb]; simp only
+    unfold enableRole
+    rw [hnew]; simp only
+    rw [if_neg (by unfold MAX_ROLES; omega)]; rfl
+  · intro hmem hcap
+    simp only at hmem hcap
+    have hf1 : findRole (s.roles ++ [⟨n, true, s.roles.length⟩]) n = some ⟨n, true, s.roles.length⟩ :=
+      findRole_append_new _ hnew rfl
+    refine ⟨⟨s.roles ++ [⟨n, true, s.roles.length⟩], s.members ++ [(a, [s.roles.length])]⟩, ?_, ?_, ?_⟩
+    · unfold grant
+      simp only [hf1, hmem]
+      have hc : ¬ s.members.length ≥ MAX_MEMBERS := by unfold MAX_MEMBERS; omega
+      simp [hc]
+    · unfold hasRole
+      simp only [lookup_append_new _ hmem, hf1]
+      simp
+    · have hf2 := findRole_setEnabled false hf1
+      refine ⟨⟨setEnabled (s.roles ++ [⟨n, true, s.roles.length⟩]) n false, s.members ++ [(a, [s.roles.length])]⟩, ?_, ?_, ?_⟩
+      · unfold disableRole; simp only [hf1]; simp
+      · unfold hasRole; simp only [lookup_append_new _ hmem, hf2]; simp
+      · have hf3 := findRole_setEnabled true hf2
+        refine ⟨⟨setEnabled (setEnabled (s.roles ++ [⟨n, true, s.roles.length⟩]) n false) n true,
+          s.members ++ [(a, [s.roles.length])]⟩, ?_, ?_⟩
+        · unfold enableNamed; simp only [hf2]
+          unfold enableRole; simp only [hf2]; simp [liftRole]
+        · unfold hasRole; simp only [lookup_append_new _ hmem, hf3]; simp
+
+/-- a name that cannot be read back never enters the role table: the gate fails before any
+change (too long ⇒ `ExceedMaxLengthLimit`, NUL ⇒ `InvalidArgument`). -/
+theorem role_rejected_unchanged {A : Type} [DecidableEq A] (s : St (List Nat) A) (n : List Nat)
+    (hnew : findRole s.roles n = none) (hbad : n.length > 32 ∨ 0 ∈ n) :
+    enableNamed s n = .error (.name .exceedMax) ∨ enableNamed s n = .error (.name .invalidArgument) := by
+  unfold enableNamed
+  rw [hnew]; simp only
+  by_cases h : n.length > 32
+  · rw [(toBytes_tooLong_iff 32 n).2 h]; exact Or.inl rfl
+  · have h0 : 0 ∈ n := by rcases hbad with h' | h'; exact absurd h' h; exact h'
+    rw [(toBytes_format_iff 32 n).2 ⟨by omega, h0⟩]; exact Or.inr rfl
+
+end
+
+-- a role name that fills the 32-byte field exactly: enable → grant → has → disable all work
+example : RoleNames.scenario (List.replicate 32 0x41) = ["ok", "PermissionDenied", "ok", "1", "ok",
+    "PreconditionsAreNotMet", "ok", "1", "ok", "PermissionDenied"] := by decide
+example : (RoleNames.scenario (List.replicate 33 0x41)).head? = some "ExceedMaxLengthLimit" := by decide
+example : (RoleNames.scenario [0x41, 0, 0x42]).head? = some "InvalidArgument" := by decide
 
 end Gmx.C35
